@@ -145,6 +145,7 @@ class Proc:
         self.unreadable = set()  # file names refused with EACCES
         self.status_extra = []  # extra raw status lines (bytes) at the end
         self.no_ctxsw = False
+        self.dying = False  # directory still there, files gone (issue 2418)
         self.version = 0
         for k, v in kw.items():
             if not hasattr(self, k):
@@ -444,6 +445,9 @@ class Kernel:
                             self.vanish(f.pid)
                         elif f.kind == "zombify":
                             self.zombify(f.pid)
+                        elif f.kind == "dying":
+                            if f.pid in self.procs:
+                                self.procs[f.pid].dying = True
                         elif f.kind == "recycle":
                             self.vanish(f.pid)
                             self.add(f.arg)
@@ -547,7 +551,7 @@ class Kernel:
     def listdir_node(self, path):
         path = self._norm(path)
         if path == "/proc":
-            names = [str(p) for p in self.procs]
+            names = [str(p) for p, pr in self.procs.items() if not pr.dying]
             names += sorted({k[6:].split("/")[0] for k in self.files
                              if k.startswith("/proc/")})
             return names
@@ -573,6 +577,10 @@ class Kernel:
         parts = rest.split("/") if rest else []
         if not parts:
             return DIR
+        if p.dying:
+            # psutil issue 2418: the /proc/<pid> directory of an exiting
+            # process can still be there while the files in it are gone
+            raise oserr(errno.ENOENT, path)
         name = parts[0]
         if name in p.unreadable and len(parts) == 1:
             raise oserr(errno.EACCES, path)
@@ -1020,7 +1028,7 @@ class SimOS:
         p = k.procs.get(pid)
         if p is None:
             p, _t = k._lookup_thread(pid)
-        if p is None:
+        if p is None or p.dying:
             raise oserr(errno.ESRCH)
         if "kill" in p.unreadable:
             raise oserr(errno.EPERM)
@@ -1144,7 +1152,7 @@ class SimResource:
         if pid == 0:
             pid = k.self_pid
         p = k.procs.get(pid)
-        if p is None:
+        if p is None or p.dying:
             raise oserr(errno.ESRCH)
         old = p.rlimits.get(res, (REAL_RESOURCE.RLIM_INFINITY,
                                   REAL_RESOURCE.RLIM_INFINITY))
@@ -1172,7 +1180,7 @@ class SimCext:
     def _proc(self, pid, what):
         k = self._k
         p = k.procs.get(pid)
-        if p is None:
+        if p is None or p.dying:
             raise oserr(errno.ESRCH)
         if what in p.unreadable:
             raise oserr(errno.EPERM)
